@@ -4,7 +4,7 @@
 (*                                                                         *)
 (* A file is a flat, pre-order sequence of NODES (records with the uniform *)
 (* fields p, c, n, a, b, ann, ow, rk, doc, sym, full, dir, owr, code - see *)
-(* AidlTree.md).  The operators below state, from the property texts, which *)
+(* spec/README.md). The operators below state, from the property texts, which *)
 (* resolved kinds and which diagnostics a file deserves, given the keys    *)
 (* registered by the files of the project.  Nothing here follows the Rust  *)
 (* control flow.                                                           *)
